@@ -16,8 +16,8 @@ CLAIMS = {
  "C04": ("kani-bmc", "§4 C04",
    "CBMC decides that one-character texts merge exactly when they sit at consecutive display columns (double-width = 2), that the merged text starts at the left cell, and that the anchor lies strictly inside the start cell.",
    "StringBuffer/CellBuffer construction, the concatenated content of merged text (format! stubbed) and the quoted-text channel are outside the claim."),
- "C05": ("kani-bmc", "§4 C05",
-   "CBMC decides soundness (an endorsed rect has exactly its four lines as sides: no ladder, overhang or T) and completeness (every closed box within the stated sizes/offsets/orders) of endorse_rect on symbolic lattice lines, and completeness of endorse_rounded_rect on the 4 sides + 4 quarter arcs of a rounded box.",
+ "C05": ("kani-bmc+tablesmt", "§4 C05",
+   "z3 decides that every cell of a box border (edge characters - ~ | : ! and the box-drawing ones, sharp corners + and the box-drawing corners) emits exactly its border stroke in every neighbourhood a box admits; CBMC decides soundness (an endorsed rect has exactly its four lines as sides: no ladder, overhang or T) and completeness (every closed box within the stated sizes/offsets/orders) of endorse_rect on symbolic lattice lines, and completeness of endorse_rounded_rect on the 4 sides + 4 quarter arcs of a rounded box.",
    "Bounded-capacity Vec stubs, powf stubbed by exact square; that the span pipeline delivers the sides as one contact group, and soundness of the ROUNDED variant (is_rounded_rect checks perpendicularity only), are outside the claim."),
  "C06": ("kani-bmc", "§4 C06",
    "Relational harnesses: each float predicate and each absolute_position/localize gives the same answer (resp. the answer shifted) when the lattice inputs are shifted by (k,n) cells, k,n symbolic in bounds.",
@@ -62,7 +62,7 @@ def main():
         if fn.endswith("_h.rs"):
             for m in re.finditer(r"^//@ harness:.*props=(\S+)", open(os.path.join(V, "kani", fn)).read(), re.M):
                 have.update(m.group(1).split(","))
-    have.update(["C03", "C12", "C14", "C09"])
+    have.update(["C03", "C05", "C12", "C14", "C09"])
     checks = []
     for pid in sorted(CLAIMS):
         if pid not in have:
@@ -95,7 +95,7 @@ def main():
         "engines": [
             {"name": "kani", "path": "/verif/kani", "serves_properties": sorted(p for p in CLAIMS if p in have),
              "kind_free_text": "Kani 0.68 / CBMC 6.11 proof harnesses injected as child modules into a scratch copy of /repo/crates/svgbob"},
-            {"name": "tablesmt", "path": "/verif/vlib/tablesmt.py", "serves_properties": ["C03", "C09", "C12", "C14"],
+            {"name": "tablesmt", "path": "/verif/vlib/tablesmt.py", "serves_properties": ["C03", "C05", "C09", "C12", "C14"],
              "kind_free_text": "translator from map/ascii_map.rs + map/unicode_map.rs to SMT-LIB2, decided by z3, cross-checked by cvc5, validated against the real crate (/verif/replay)"},
         ],
         "checks": checks,
